@@ -45,6 +45,9 @@ func (r *Rng) Intn(n int) int {
 func (r *Rng) Bool() bool     { return r.Next()&1 == 1 }
 func (r *Rng) Pct(p int) bool { return r.Intn(100) < p }
 
+// Pick returns one element of l.
+func (r *Rng) Pick(l []string) string { return l[r.Intn(len(l))] }
+
 // ---- run context ----
 type Failure struct {
 	Sig    string `json:"sig"`    // narrow signature, matched against known_findings.json
